@@ -82,7 +82,7 @@ PROPS['C13'] = dict(
   level='proof',
   verus=[dict(unit='ops', min_functions=12), dict(unit='klass', min_functions=4)],
   not_decided=['A-slot: every slot id in live code of a module is inside that module\'s cache and belongs to one site with one name (established by Vm::compile; false for REPL entries, see C19)',
-               'A-classid: a class address identifies one class for as long as it sits in a cache (GC address reuse: cache entries are not roots) — not decided'],
+               'A-classid: a class address identifies one class for as long as it sits in a cache: holds since fix ae3a806 made the caches roots (D21; the root-set obligation is in the gctrace unit, C05)'],
 )
 PROPS['C16'] = dict(
   level='proof',
@@ -115,7 +115,7 @@ PROPS['C05'] = dict(
              kind='bounded', bound='12 of 13 object kinds (Map excluded: generic impl cannot be stubbed), one raw object per kind, unwind 15', timeout=1200, jobs=4, mem_gb=12, assumption_ids=['A-kani', 'A-stub', 'A-bound']),
         dict(crate='gc', harnesses=_GC_C05, kind='bounded', bound='one LyBox, one or two collections, unwind 4', timeout=2400, jobs=3, assumption_ids=['A-kani', 'A-stub', 'A-bound'])],
   explanation='Verus: every trace body reaches every GC-typed field of its struct (contracts generated from the real struct definitions), mark-guarded handles and the 13-kind dispatch; Kani (bounded): the real dispatch and the real Allocator sweep',
-  not_decided=['root sets of Vm / Compiler (impl TraceRoot), natives\' push_root discipline, allocate/allocate_obj rooting of the in-flight object, "same output under every collection schedule"',
+  not_decided=['the root set of a running compilation (impl TraceRoot for Compiler; the one of Vm IS decided), natives\' push_root discipline, allocate/allocate_obj rooting of the in-flight object, "same output under every collection schedule"',
                'the tri-colour invariant over the whole heap (marked objects have their children traced before the sweep) is an induction over the object graph, not stated',
                'A-alias: Class.init aliases an entry of Class.methods (exempted field in gctrace): proved as an invariant of add_method / inherit in the klass unit under the premise that the name "init" is interned once (C09)', 'ChannelWaiter.waiter (Box<dyn TraceAny>) and Value::trace itself (two cfg variants) are leaves of the model'],
 )
